@@ -165,7 +165,7 @@ pub fn gen_scalar(r: &mut Rng, cfg: &DocCfg) -> Value<'static> {
 pub const SMALL_DOCS: &[&str] = &[
     "[]", "{}", "null", "true", "false", "0", "1", "1.0", "-1", "\"\"", "\"a\"", "[null]", "[[]]", "[{}]", "[1]", "[1.0]",
     r#"{"a":[]}"#, r#"{"a":{}}"#, "[1,2]", "[2,1]", "[1,2,3]", r#"{"a":1}"#, r#"{"a":1,"b":2}"#, r#"{"b":2}"#, r#"{"a":1.0}"#,
-    r#"[{"a":1},{"b":2}]"#, r#"[{"b":2},{"a":1}]"#, "[[1],[2]]", "[[1,2]]", "[[2],[1]]", r#"["a",null,true,false]"#, r#"[null,true,false,""]"#, r#"{"":[],"a":{}}"#,
+    r#"{"a":2,"b":1}"#, r#"{"a":1,"c":0}"#, r#"{"a":[1],"b":1}"#, r#"[{"a":1},{"b":2}]"#, r#"[{"b":2},{"a":1}]"#, "[[1],[2]]", "[[1,2]]", "[[2],[1]]", r#"["a",null,true,false]"#, r#"[null,true,false,""]"#, r#"{"":[],"a":{}}"#,
 ];
 
 pub const EDGE_DOCS: &[&str] = &[
